@@ -206,6 +206,8 @@ def _ops():
     add("copy", lambda l: l.copy(), lambda u: ("seq", tuple(u)))
     add("replace(order=0)", lambda l: l.replace(order=0), lambda u: ("seq", tuple(u)))
     add("binning(1)", lambda l: l.binning(1), lambda u: ("seq", tuple(u)))
+    add("reshape(shape)", lambda l: l.reshape(shape=(3, 3, 3)), lambda u: ("seq", tuple(u)))
+    add("reshape(template)", lambda l: l.reshape(template=np.zeros((3, 3, 3), dtype=np.float32)), lambda u: ("seq", tuple(u)))
     for gv in (0, 1):
         def grp(l, gv=gv):
             for key, sub in l.groupby("g"):
@@ -396,6 +398,22 @@ def run_case(case):
         bad("molecules", "attributes-detached", "positions / features no longer those of the row's uid")
     if kind == "batch" and m.features["image-id"].to_list() != [tomo_of(u, ntomo) for u in uids]:
         bad("molecules", "image-id-detached", f"image-id {m.features['image-id'].to_list()} for uids {uids}")
+    if kind == "batch":
+        # the per-tomogram view of a batch loader: loaders[image id], iteration and len
+        present = sorted({tomo_of(u, ntomo) for u in uids})
+        acc = LF.loaders
+        if len(acc) != len(present):
+            bad("loaders", "len", f"len(loaders) = {len(acc)} for image ids {present}")
+        for t in present:
+            sub = acc[t]
+            wu = tuple(u for u in uids if tomo_of(u, ntomo) == t)
+            gu = loader_uids(sub)
+            gv = [_centre(a) for a in np.asarray(sub.asnumpy())]
+            if gu != wu or gv != [code(t, *POS[u]) for u in wu]:
+                bad("loaders", "getitem", f"loaders[{t}] holds uids {gu} and loads centre codes {gv}; expected uids {wu} of tomogram {t}")
+        it = [(loader_uids(sub), [_centre(a) for a in np.asarray(sub.asnumpy())]) for sub in acc]
+        if sorted(u for us, _ in it for u in us) != sorted(uids) or any(vs != [code(tomo_of(u, ntomo), *POS[u]) for u in us] for us, vs in it):
+            bad("loaders", "iteration", f"iterating loaders gives {it}")
     # o9 binning(2): block sums of the fingerprint at floor(pos/2)
     wantb = []
     for u in uids:
